@@ -213,10 +213,12 @@ def renderFields (parens : Bool) (fs : List Field) : List Char :=
 def renderDecl (d : Decl) : List Char :=
   d.ctor.toList ++ ['#'] ++ hex8 d.id ++ [' '] ++ renderFields true d.fields ++ "= ".toList ++ d.result.toList ++ [';', '\n']
 
-def renderChars (S : Schema) : List Char :=
-  S.types.flatMap renderDecl ++ "---functions---\n".toList ++ S.funcs.flatMap renderDecl
+/-- one string per declaration, the functions separator in between -/
+def renderLines (S : Schema) : List String :=
+  S.types.map (fun d => String.ofList (renderDecl d)) ++ ["---functions---\n"] ++
+    S.funcs.map (fun d => String.ofList (renderDecl d))
 
-def render (S : Schema) : String := String.ofList (renderChars S)
+def render (S : Schema) : String := String.join (renderLines S)
 
 /-- the text whose CRC-32 is the constructor id: the declaration without `#id`, `;` and parentheses -/
 def crcText (d : Decl) : List Char :=
